@@ -103,6 +103,30 @@ Theorem C20_done_means_below_threshold : forall ord expired s s',
 Proof. exact compaction_done. Qed.
 Print Assumptions C20_done_means_below_threshold.
 
+(* a table qualifies when the garbage ratio is reached or when it holds garbage and not one live byte (the second clause
+   is the repair of D44: a table is sealed as soon as an entry does not fit, so it can be far from full; when its entries
+   were all superseded its garbage stayed below the ratio and its memory was never given back) *)
+Theorem C20_compactable_meaning : forall t,
+  compactable t = true <->
+  (tinuse t = 0 /\ 0 < tgarb t) \/ talloc t * max_garbage_ratio_num <= tgarb t * max_garbage_ratio_den.
+Proof. exact compactable_meaning. Qed.
+Print Assumptions C20_compactable_meaning.
+
+(* hence, once compaction has reported done, every table other than the one being written that holds garbage also holds
+   live bytes and is below the garbage ratio: allocated memory is tied to live data *)
+Theorem C20_no_dead_table_after_compaction : forall ord expired s s',
+  s_compaction ord expired s = (s', true) ->
+  forall t, In t (tl (stabs s')) -> 0 < tgarb t ->
+    0 < tinuse t /\ tgarb t * max_garbage_ratio_den < talloc t * max_garbage_ratio_num.
+Proof. exact no_dead_table_after_compaction. Qed.
+Print Assumptions C20_no_dead_table_after_compaction.
+
+(* the table of the D44 witness: 1021 bytes, sealed after one entry of 367 bytes that was superseded later: 36% garbage *)
+Example C20_dead_table_below_ratio :
+  let t := {| tcoef := 0; toff := 367; talloc := 1021; tinuse := 0; tgarb := 367; tstate := table_state_ro; trecs := [] |} in
+  (talloc t * max_garbage_ratio_num <=? tgarb t * max_garbage_ratio_den) = false /\ compactable t = true.
+Proof. vm_compute. split; reflexivity. Qed.
+
 (* ---- a concrete store (table size 100, threshold 40 bytes of garbage): two sealed tables qualify, the written
    table holds one record and no garbage; two calls drain them, the third reports done ---- *)
 Definition ex_ent (k : N) : entry := {| ekey := [k]; ettl := 0; ets := 0; ela := 0; evalue := [] |}.
